@@ -72,7 +72,9 @@ Definition decl_facts (k : case) : list fact :=
    4 accepted, Go's facts = declarative, but differ from the engine model
    6 accepted, Go's facts = declarative, the engine model reports an error
    7 accepted, Go: evaluation error / panic / non-ground fact
-   8 malformed case *)
+   8 malformed case
+   9 as 6, and the clause has a variable = variable equality with both sides unbound:
+     the documented gap of the engine model (Solve.v has no aliasing); Go = declarative *)
 Definition judge (k : case) : Z :=
   let c := k_clause k in
   let m := accepted c in
@@ -85,7 +87,7 @@ Definition judge (k : case) : Z :=
        | OFacts fs =>
            if negb (set_eqb fs (decl_facts k)) then 5
            else match model_eval c (k_edb k) with
-                | None => 6
+                | None => if alias_free (rewrite c) then 6 else 9
                 | Some ms => if set_eqb fs ms then 0 else 4
                 end
        end.
